@@ -270,6 +270,10 @@ def check_tlp_marking(marking_obj, spec_version):
     # Specific TLP Marking validation case.
 
     if marking_obj.get("definition_type", "") == "tlp":
+        if "definition" not in marking_obj:
+            raise exceptions.TLPMarkingDefinitionError(
+                marking_obj["id"], "a TLP marking with a 'definition'",
+            )
         color = marking_obj["definition"]["tlp"]
 
         if color == "white":
